@@ -414,6 +414,11 @@ func (ctx *Ctx) cmp(path []byte, cond op, right []byte) bool {
 	ctx.Err = nil
 	ctx.BufB = false
 
+	// Special case: check square brackets on counter loops (see Ctx.replaceQB()).
+	if ctx.chQB {
+		path = ctx.replaceQB(path)
+	}
+
 	// Split path.
 	ctx.bufS = ctx.bufS[:0]
 	ctx.bufS = bytealg.AppendSplitString(ctx.bufS, byteconv.B2S(path), ".", -1)
